@@ -128,7 +128,12 @@ fn build_member(idx: usize, n: usize, x: usize, cfg: &Value, picker: &mut Picker
     let seeded = cfg["seeded"].as_bool().unwrap_or(false);
     let sym_values = cfg["values"].as_str() == Some("sym");
     let nidx = cfg["name_idx"].as_u64().map(|v| v as usize).unwrap_or(idx);
-    let pc_gens = ristretto::create_pedersen_gens_with_extension_degree(ext_degree(x));
+    let mut pc_gens = ristretto::create_pedersen_gens_with_extension_degree(ext_degree(x));
+    if cfg["degenerate_g"].as_bool().unwrap_or(false) && x >= 2 {
+        // g_1 = 2 g_0: different blinding vectors open the same commitment (used to vary the witness under a fixed statement)
+        pc_gens.g_base_vec[1] = pc_gens.g_base_vec[0] * Scalar::from(2u8);
+        pc_gens.g_base_compressed_vec[1] = pc_gens.g_base_vec[1].compress();
+    }
     let params = RangeParameters::init(n, cap, pc_gens).expect("RangeParameters::init");
     for r in [0u64, 1, n as u64, m as u64, x as u64, cap as u64, 2, 3, 4, 5, 6, 8, 16, 32, 64] {
         if !picker.used.contains(&r) {
@@ -178,7 +183,14 @@ fn build_member(idx: usize, n: usize, x: usize, cfg: &Value, picker: &mut Picker
     let mut commitments = Vec::new();
     let mut blindings: Vec<Vec<Scalar>> = Vec::new();
     for j in 0..m {
-        let r: Vec<Scalar> = (0..x).map(|k| env::sym_scalar(&format!("r_{}_{}_{}", nidx, j, k), "blinding")).collect();
+        let eqb = cfg["equal_blindings"].as_bool().unwrap_or(false);
+        let mut r: Vec<Scalar> =
+            (0..x).map(|k| env::sym_scalar(&format!("r_{}_{}_{}", nidx, j, if eqb { 0 } else { k }), "blinding")).collect();
+        if cfg["witness_shift"].as_u64() == Some(j as u64) && x >= 2 {
+            // another opening of the same commitment under degenerate_g: (r0 + 2, r1 - 1)
+            r[0] = r[0] + Scalar::from(2u8);
+            r[1] = r[1] - Scalar::ONE;
+        }
         commitments.push(params.pc_gens().commit(&Scalar::from(values[j]), &r).expect("commit"));
         openings.push((values[j], r.clone()));
         blindings.push(r);
@@ -299,6 +311,26 @@ fn run_batch(cfg: &Value) -> Value {
                         Ok(q) => json!({"decoded": true, "equal": q == p, "bytes_equal": q.to_bytes() == bytes}),
                         Err(e) => json!({"decoded": false, "err": format!("{:?}", e)}),
                     };
+                    #[cfg(not(feature = "model"))]
+                    {
+                        // REAL flavour: the blinding part of A, i.e. A minus the bit part recomputed from the known witness
+                        let bl = st.generators.bit_length();
+                        let mut a_pt = curve25519_dalek::ristretto::CompressedRistretto::from_slice(&bytes[1 + 32 * x..33 + 32 * x]).unwrap().decompress().unwrap();
+                        let gs: Vec<RistrettoPoint> = st.generators.gi_base_iter().cloned().collect();
+                        let hs: Vec<RistrettoPoint> = st.generators.hi_base_iter().cloned().collect();
+                        let vals: Vec<u64> = mem.info["values"].as_array().unwrap().iter().map(|v| v["v"].as_str().unwrap().parse::<u64>().unwrap()).collect();
+                        for (j, v) in vals.iter().enumerate() {
+                            let o = v.wrapping_sub(st.minimum_value_promises[j].unwrap_or(0));
+                            for i in 0..bl {
+                                if (o >> i) & 1 == 1 {
+                                    a_pt = a_pt - gs[j * bl + i];
+                                } else {
+                                    a_pt = a_pt + hs[j * bl + i];
+                                }
+                            }
+                        }
+                        o["a_blind"] = env::point_id(&a_pt);
+                    }
                     mem.proof = Some(p);
                 } else {
                     all_proved = false;
